@@ -150,30 +150,48 @@ theorem cmdLookup_short {α : Type} (abbr : Bool) (t : List (Key × α)) (c : Ch
   rw [classifyWord_short c h1]
   simp only [cmdKey, Res.bind_ok, ofChar_of_ne_nul c h2]
 
-/-- the word `--name` is looked up with the key the *specification* parser makes of `name` -/
+/-- the word `--name` is looked up with `wordKey name`: the key the *specification* parser makes of
+    `name`, of `--name` when the name has one character -/
 theorem cmdLookup_long {α : Type} (abbr : Bool) (t : List (Key × α)) (name : List Char) (hne : name ≠ [])
     (heq : '=' ∉ name) :
-    cmdLookup abbr t ('-' :: '-' :: name) = (Key.parse name >>= fun k => findArg abbr t k) := by
+    cmdLookup abbr t ('-' :: '-' :: name) = (wordKey name >>= fun k => findArg abbr t k) := by
   unfold cmdLookup
   rw [classifyWord_long name hne heq]
   rfl
 
-/-- a word of two or more characters behind two dashes is looked up with the long key -/
-theorem cmdLookup_word {α : Type} (abbr : Bool) (t : List (Key × α)) (w : List Char) (hw : KeyWord w)
-    (heq : '=' ∉ w) (hlen : 2 ≤ w.length) :
-    cmdLookup abbr t ('-' :: '-' :: w) = findArg abbr t ⟨none, w⟩ := by
-  rw [cmdLookup_long abbr t w hw.1 heq]
-  have := (parse_forms 'a' w (by decide) hw).2.1 hlen [] (by simp)
-  rw [List.nil_append] at this
-  rw [this]; rfl
+/-- the pinned code: every name went through the specification parser as it was typed -/
+theorem cmdLookupHead_long {α : Type} (abbr : Bool) (t : List (Key × α)) (name : List Char) (hne : name ≠ [])
+    (heq : '=' ∉ name) :
+    cmdLookupHead abbr t ('-' :: '-' :: name) = (Key.parse name >>= fun k => findArg abbr t k) := by
+  unfold cmdLookupHead
+  rw [classifyWord_long name hne heq]
+  rfl
 
-/-- a single character behind two dashes is looked up with the **short** key (the name goes through
-    the specification parser, for which a lone character is a short key) -/
+/-- every word `--w`, one-character words included, is looked up with the long key `w` -/
+theorem cmdLookup_word {α : Type} (abbr : Bool) (t : List (Key × α)) (w : List Char) (hw : KeyWord w)
+    (heq : '=' ∉ w) : cmdLookup abbr t ('-' :: '-' :: w) = findArg abbr t ⟨none, w⟩ := by
+  rw [cmdLookup_long abbr t w hw.1 heq, wordKey_word w hw]; rfl
+
+theorem keyWord_of_keyChar {c : Char} (hc : KeyChar c) : KeyWord [c] := by
+  obtain ⟨c1, c2, c3, _⟩ := hc
+  refine ⟨by simp, ?_, ?_, ?_⟩
+  · simp only [List.head?_cons, ne_eq, Option.some.injEq]; exact c1
+  · simp only [List.mem_singleton]; exact fun h => c2 h.symm
+  · simp only [List.mem_singleton]; exact fun h => c3 h.symm
+
+/-- a single character behind two dashes is looked up with the **long** key of that character (the
+    two dashes are put back before the name goes through the specification parser) -/
 theorem cmdLookup_one_char {α : Type} (abbr : Bool) (t : List (Key × α)) (c : Char) (hc : KeyChar c)
-    (heq : c ≠ '=') : cmdLookup abbr t ['-', '-', c] = findArg abbr t ⟨some c, []⟩ := by
-  rw [cmdLookup_long abbr t [c] (by simp) (by simp [Ne.symm heq])]
-  have := (parse_forms c ['a', 'a'] hc (by decide)).1 [] (by simp)
-  rw [List.nil_append] at this
+    (heq : c ≠ '=') : cmdLookup abbr t ['-', '-', c] = findArg abbr t ⟨none, [c]⟩ :=
+  cmdLookup_word abbr t [c] (keyWord_of_keyChar hc) (by simp [Ne.symm heq])
+
+/-- the pinned code looked a single character behind two dashes up with the **short** key (the name
+    went through the specification parser, for which a lone character is a short key) -/
+theorem cmdLookupHead_one_char {α : Type} (abbr : Bool) (t : List (Key × α)) (c : Char) (hc : KeyChar c)
+    (heq : c ≠ '=') : cmdLookupHead abbr t ['-', '-', c] = findArg abbr t ⟨some c, []⟩ := by
+  rw [cmdLookupHead_long abbr t [c] (by simp) (by simp [Ne.symm heq])]
+  have := wordKeyHead_one c hc
+  unfold wordKeyHead at this
   rw [this]; rfl
 
 /-- one extra dash before a character, one or two extra dashes before a word: the specification
@@ -185,15 +203,18 @@ theorem cmdLookup_extra_dashes {α : Type} (abbr : Bool) (t : List (Key × α)) 
     cmdLookup abbr t ('-' :: '-' :: '-' :: '-' :: w) = findArg abbr t ⟨none, w⟩ := by
   have hf := parse_forms c w hc hw
   refine ⟨?_, ?_, ?_⟩
-  · rw [cmdLookup_long abbr t ['-', c] (by simp) (by simp [Ne.symm hce])]
+  · rw [cmdLookup_long abbr t ['-', c] (by simp) (by simp [Ne.symm hce]),
+      wordKey_of_ne_one ['-', c] (by simp)]
     have := hf.1 ['-'] (by simp)
     rw [show ['-'] ++ [c] = ['-', c] from rfl] at this
     rw [this]; rfl
-  · rw [cmdLookup_long abbr t ('-' :: w) (by simp) (by simp [heq])]
+  · rw [cmdLookup_long abbr t ('-' :: w) (by simp) (by simp [heq]),
+      wordKey_of_two_le ('-' :: w) (by simp only [List.length_cons]; omega)]
     have := hf.2.1 hlen ['-'] (by simp)
     rw [show ['-'] ++ w = '-' :: w from rfl] at this
     rw [this]; rfl
-  · rw [cmdLookup_long abbr t ('-' :: '-' :: w) (by simp) (by simp [heq])]
+  · rw [cmdLookup_long abbr t ('-' :: '-' :: w) (by simp) (by simp [heq]),
+      wordKey_of_two_le ('-' :: '-' :: w) (by simp only [List.length_cons]; omega)]
     have := hf.2.1 hlen ['-', '-'] (by simp)
     rw [show ['-', '-'] ++ w = '-' :: '-' :: w from rfl] at this
     rw [this]; rfl
@@ -201,58 +222,27 @@ theorem cmdLookup_extra_dashes {α : Type} (abbr : Bool) (t : List (Key × α)) 
 theorem keyWord_of_wellformed {k : Key} (h : k.WellFormed) (hne : k.long ≠ []) : KeyWord k.long :=
   ⟨hne, h.2.2.2.2.1, h.2.2.2.2.2.1, h.2.2.2.2.2.2⟩
 
-
-/-! ### the proposed repair (NOT the code that exists; see design_notes/keys.md, keys_longkey1.patch)
-
-  `Handler::evalSingleArgument` would put the two dashes back before a name of one character, so
-  that the specification parser sees `--c`, which it reads as the long key `c`. -/
-
-/-- `cmdKey` after the proposed repair -/
-def cmdKeyRepaired : CmdWord → Res Key
-  | .short c => .ok (Key.ofChar c)
-  | .long name => Key.parse (if name.length = 1 then '-' :: '-' :: name else name)
-
-def cmdLookupRepaired {α : Type} (abbr : Bool) (table : List (Key × α)) (w : List Char) :
-    Res (Option (Nat × α)) :=
-  match classifyWord w with
-  | none => .throw .logic_error
-  | some cw => do
-    let k ← cmdKeyRepaired cw
-    findArg abbr table k
-
-/-- with the repair every word `--w`, one-character words included, is looked up with the long key -/
-theorem cmdLookupRepaired_word {α : Type} (abbr : Bool) (t : List (Key × α)) (w : List Char) (hw : KeyWord w)
-    (heq : '=' ∉ w) : cmdLookupRepaired abbr t ('-' :: '-' :: w) = findArg abbr t ⟨none, w⟩ := by
-  unfold cmdLookupRepaired
-  rw [classifyWord_long w hw.1 heq]
-  simp only [cmdKeyRepaired]
-  have hf := parse_forms 'a' w (by decide) hw
-  by_cases h1 : w.length = 1
-  · rw [if_pos h1]
-    have := hf.2.2.1
-    rw [show ['-', '-'] ++ w = '-' :: '-' :: w from rfl] at this
-    rw [this]; rfl
-  · rw [if_neg h1]
-    have hlen : 2 ≤ w.length := by
-      have : w.length ≠ 0 := fun h => hw.1 (List.eq_nil_of_length_eq_zero h)
-      omega
-    have := hf.2.1 hlen [] (by simp)
-    rw [List.nil_append] at this
-    rw [this]; rfl
-
-/-- with the repair the command-line clause holds without the proviso on the length: an exact long
-    key of any length selects its own argument -/
-theorem cmdline_exact_repaired {α : Type} (abbr : Bool) (t : List (Key × α)) (ht : Disjoint t)
+/-- the command-line clause without a proviso on the length: an exact long key of any length selects
+    its own argument -/
+theorem cmdline_exact_long {α : Type} (abbr : Bool) (t : List (Key × α)) (ht : Disjoint t)
     (e : Key × α) (he : e ∈ t) (hwf : e.1.WellFormed) (hne : e.1.long ≠ []) (heq : '=' ∉ e.1.long) :
-    payload (cmdLookupRepaired abbr t ('-' :: '-' :: e.1.long)) = .ok (some e.2) := by
-  rw [cmdLookupRepaired_word abbr t e.1.long (keyWord_of_wellformed hwf hne) heq]
+    payload (cmdLookup abbr t ('-' :: '-' :: e.1.long)) = .ok (some e.2) := by
+  rw [cmdLookup_word abbr t e.1.long (keyWord_of_wellformed hwf hne) heq]
   exact findArg_exact abbr t ht e he _ (Or.inl rfl) (Or.inr (Or.inl ⟨hne, rfl⟩))
 
-/-- the witness of the finding under the repair: `--v` selects its own argument, `-v` the other one -/
-theorem repaired_witness :
-    payload (cmdLookupRepaired true (addAll [] [("--v".toList, 0), ("-v".toList, 1)]) "--v".toList) = .ok (some 0) ∧
-    payload (cmdLookupRepaired true (addAll [] [("--v".toList, 0), ("-v".toList, 1)]) "-v".toList) = .ok (some 1) ∧
-    payload (cmdLookupRepaired true (addAll [] [("--v".toList, 0)]) "--v".toList) = .ok (some 0) :=
-  ⟨rfl, rfl, rfl⟩
+/-- a key word whose name has no comma gives a one-part key (also the one-character name, which is
+    looked up as `--c`) -/
+theorem wordKey_single_of_no_comma (name : List Char) (hc : ',' ∉ name) (k : Key) (h : wordKey name = .ok k) :
+    k.Single := by
+  unfold wordKey at h
+  split at h
+  · refine parse_single_of_no_comma _ ?_ k h
+    intro hm
+    simp only [List.mem_cons] at hm
+    rcases hm with e | e | e
+    · cases e
+    · cases e
+    · exact hc e
+  · exact parse_single_of_no_comma _ hc k h
 
 end CelmaVerif.Keys
